@@ -61,7 +61,36 @@ pub fn eval_for(pid: &'static str) -> impl Fn(&[u8]) -> Sigs {
         if pid == "C08" && sigs.is_empty() {
             sigs.extend(ident_shown(buf));
         }
+        if pid == "C09" && sigs.is_empty() {
+            sigs.extend(squawk_shown(buf));
+        }
         sigs
+    }
+}
+
+/// C09, "presented as four hex-coded digits": the report of a frame that carries an identity code
+/// has an `Identity:` / `Squawk:` line whose value reads as those four digits (leading zeros may
+/// be dropped), in every carrier.
+fn squawk_shown(buf: &[u8]) -> Sigs {
+    if buf.len() < 7 {
+        return vec![];
+    }
+    let df = buf[0] >> 3;
+    let code = match df {
+        5 | 21 => get(buf, 20, 13) as u32,
+        17 | 18 if buf.len() >= 11 && buf[4] >> 3 == 28 => get(buf, 32 + 12, 13) as u32,
+        _ => return vec![],
+    };
+    let Decoded::Ok(frame) = decode(buf) else { return vec![] };
+    let Ok(text) = std::panic::catch_unwind(std::panic::AssertUnwindSafe(|| frame.to_string())) else { return vec![] };
+    let want = refdec::squawk_of(code);
+    let shown = text.lines().find_map(|l| {
+        let l = l.trim_start();
+        l.strip_prefix("Identity:").or_else(|| l.strip_prefix("Squawk:")).map(|v| v.trim().to_string())
+    });
+    match shown.as_deref().map(|v| u32::from_str_radix(v, 16)) {
+        Some(Ok(v)) if v == want => vec![],
+        _ => vec![(format!("C09/shown_squawk/{}", refdec::class_of(buf)), format!("identity code {want:04x}: the report shows {shown:?}"))],
     }
 }
 
@@ -105,7 +134,10 @@ pub fn replay(pid: &'static str, v: &Value) -> Vec<Failure> {
                 if let Some(refdec::Val::S(cn)) = refdec::actual(&f).get("me.cn").cloned() {
                     want = Some(cn);
                 }
+                // as in the check: silent for 3 s, heard, expiry with a 2 s threshold
+                planes.verif_backdate(ICAO([0xab, 0xc0, 0x01]), std::time::Duration::from_secs(3));
                 planes.action(f, (52.0, 4.0), 500.0);
+                planes.prune(2);
             }
         }
         let shown = planes.get(ICAO([0xab, 0xc0, 0x01])).and_then(|s| s.callsign.clone());
@@ -397,8 +429,13 @@ pub fn run_c08(ctx: &Ctx) -> ! {
                     if let (Some(refdec::Val::S(cn)), Decoded::Ok(f2)) = (refdec::actual(&frame).get("me.cn").cloned(), decode(&c)) {
                         st.eval();
                         let r = std::panic::catch_unwind(std::panic::AssertUnwindSafe(|| {
+                            // the aircraft has been silent for 3 s; the identification just received
+                            // keeps it tracked through an expiry call with a 2 s threshold
+                            let key = ICAO([0xab, 0xc0, 0x01]);
+                            planes.verif_backdate(key, std::time::Duration::from_secs(3));
                             planes.action(f2, (52.0, 4.0), 500.0);
-                            planes.get(ICAO([0xab, 0xc0, 0x01])).and_then(|s| s.callsign.clone())
+                            planes.prune(2);
+                            planes.get(key).and_then(|s| s.callsign.clone())
                         }));
                         if let Ok(shown) = r {
                             if shown.as_deref() != Some(cn.as_str()) && !st.failures.contains_key("C08/tracker_callsign") {
